@@ -6,6 +6,7 @@ CONSTANTS
  Pages = {0}
  TagDels = {0, 1}
  SubjSel = {"same"}
+ Spells = {"dig"}
  MaxOps = 3
  MaxConc = 2
  SameSubject = TRUE
@@ -17,6 +18,7 @@ CONSTANTS
  ListConc = FALSE
  CowIndex = FALSE
  InvAfterDel = FALSE
+ NormKey = TRUE
 INIT MInit
 NEXT MNext
 VIEW MView
